@@ -292,7 +292,47 @@ def h_jwk_members(ctx):
     return Outcome("members-ok" if not vs else "members-bad", vs, nontrivial=(name, route, private))
 
 
+TEXT_INTRUDERS = ["\u0080", "\u00e9", "\u00ff", "\u0100", "\u20ac", "\uff21", "\U0001F600", "\u200b", "\u00a0"]
+
+
+def h_text_segments(ctx):
+    """Segments that reach the codec as TEXT (the members of a JSON serialization, JWK members): a character outside the alphabet is
+    refused there too - in json_b64decode, in base64_to_int, in a JWK's members and in a hand-built flattened JWS."""
+    from joserfc import jws
+    from joserfc.jwk import OctKey
+    u = _util()
+    what = ctx.choose("entry", ["json_b64decode", "base64_to_int", "OctKey k member", "flattened JWS protected member", "flattened JWS signature member"])
+    ch = ctx.choose("character", TEXT_INTRUDERS)
+    how = ctx.choose("edit", ["insert", "substitute", "append", "prepend"])
+    base = {"json_b64decode": b64.enc(b'{"alg":"HS256","kid":"k1"}'), "base64_to_int": b64.uint(2 ** 64 + 12345),
+            "OctKey k member": b64.enc(bytes(range(32)))}.get(what)
+    key = OctKey.import_key({"kty": "oct", "k": b64.enc(bytes(range(32)))})
+    if base is None:
+        tok = jws.serialize_json({"protected": {"alg": "HS256"}}, b"payload", key, algorithms=["HS256"])
+        member = "protected" if "protected" in what else "signature"
+        base = tok[member]
+    vs, n = [], 0
+    positions = range(len(base) + 1) if how == "insert" else (range(len(base)) if how == "substitute" else [0])
+    for i in positions:
+        text = {"insert": base[:i] + ch + base[i:], "substitute": base[:i] + ch + base[i + 1:], "append": base + ch, "prepend": ch + base}[how]
+        n += 1
+        if what == "json_b64decode":
+            r = call(u.json_b64decode, text)
+        elif what == "base64_to_int":
+            r = call(u.base64_to_int, text)
+        elif what == "OctKey k member":
+            r = call(OctKey.import_key, {"kty": "oct", "k": text})
+        else:
+            r = call(jws.deserialize_json, {**tok, member: text}, key, algorithms=["HS256"])
+        if r.ok:
+            vs.append(viol(f"a character outside the alphabet is accepted in a text segment [{what}]", f"U+{ord(ch):04X} {how} at {i}: {text[:60]!r} -> {str(r.value)[:60]!r}"))
+        elif not isinstance(r.exc, ValueError):
+            vs.append(viol(f"a character outside the alphabet in a text segment raises {r.etype}, not a ValueError [{what}]", f"U+{ord(ch):04X} {how} at {i}"))
+    return Outcome("text-refused" if not vs else "text-ACCEPTED", vs, nontrivial=(what, ch, how), n=n)
+
+
 PARTS = [
+    Part("text-segments", h_text_segments, split_depth=2),
     Part("b64-long-inputs", h_long, split_depth=1),
     Part("jwk-integer-members", h_jwk_members, split_depth=1),
     Part("b64-encode", h_encode, split_depth=2),
@@ -303,5 +343,5 @@ PARTS = [
     Part("json-header", h_json, split_depth=1),
 ]
 for _p in PARTS:
-    if _p.name in ("int-minimal", "json-header", "int-fixed-width", "b64-long-inputs", "jwk-integer-members"):
+    if _p.name in ("int-minimal", "json-header", "int-fixed-width", "b64-long-inputs", "jwk-integer-members", "text-segments"):
         _p.single_bucket_ok = True
